@@ -66,9 +66,13 @@ def judge(d):
     bad = []
     count = 0
 
+    all_inputs = []
+
     def mismatch(inp, exp, got):
         nonlocal count
         count += 1
+        if len(all_inputs) < 2000:
+            all_inputs.append(inp)
         if len(bad) < 25:
             bad.append({"input": inp, "expected": exp, "got": got})
     with open(os.path.join(d, "out.txt"), encoding="utf-8") as f:
@@ -94,9 +98,11 @@ def judge(d):
                         if g[0] != off or (g[1], g[2]) != (row, col) or (g[3], g[4]) != (row, col):
                             mismatch("%r at offset %d" % (s, off), "row %d column %d" % (row, col), "linear %d:%d indexed %d:%d" % (g[1], g[2], g[3], g[4]))
                             break
-            if tree not in ("same", "noparse"):
-                mismatch(repr(s), "the two located trees are equal", tree[:200])
-    print(json.dumps({"evaluated": n, "mismatches": bad, "mismatch_count": count}))
+            if tree.startswith("NAMERANGE"):
+                mismatch(repr(s), "the byte range of a Name node spells the name", tree[10:200])
+            elif tree not in ("same", "noparse"):
+                mismatch(repr(s), "the two located trees are equal (and neither fold panics)", tree[:200])
+    print(json.dumps({"evaluated": n, "mismatches": bad, "mismatch_count": count, "all_inputs": all_inputs}))
 
 
 if __name__ == "__main__":
